@@ -1,0 +1,21 @@
+//go:build verif
+
+// Contracts for package sync, read as text by /verif/engine (govc); no code.
+// The spinlock's mutual exclusion (C08) is NOT provable by per-call contracts
+// (assembly XCHG loop, parallel tasks); what callers rely on is assumed here.
+
+package sync
+
+//@ mode bv
+
+//@ func (l *Spinlock) Acquire()
+//@   trusted
+//@   requires l != nil && l.state == 0
+//@   modifies l.state
+//@   ensures l.state == 1
+
+//@ func (l *Spinlock) Release()
+//@   trusted
+//@   requires l != nil && l.state == 1
+//@   modifies l.state
+//@   ensures l.state == 0
